@@ -2,6 +2,7 @@
 from __future__ import annotations
 
 import ast
+import re
 
 from .. import cfg, core
 from ..core import dotted, nun, pmod, un
@@ -301,8 +302,10 @@ def _aware_instant(ctx) -> None:
             continue
         n += 1
         ret = ex[2].value
-        if p.holds(f"{dtp}.tzinfo is None") is True:
-            continue
+        if p.holds(f"{dtp}.tzinfo is None") is True or p.holds(f"{dtp}.utcoffset() is None") is True \
+                or p.holds(f"{dtp}.utcoffset() is not None") is False or p.holds(f"{dtp}.tzinfo is not None") is False \
+                or p.holds("tz is not None") is False or p.holds("tz is None") is True:
+            continue            # a naive input (or no zone at all): nothing to convert
         srcs = set()
         for c in core.calls(ret):
             if core.callee_name(c).endswith("create"):
@@ -312,12 +315,10 @@ def _aware_instant(ctx) -> None:
         routed = False
         for sname in srcs:
             v = cfg.subst_path(p, ast.Name(id=sname, ctx=ast.Load()), {dtp, "cls"})
-            if ".astimezone(" in nun(v):
+            # carried over as an instant: dt.astimezone(zone) or <pendulum zone>.convert(dt) (astimezone semantics for an aware value)
+            if ".astimezone(" in nun(v) or re.search(r"\.convert\(" + re.escape(dtp) + r"[,)]", nun(v)):
                 routed = True
-        if not routed and p.holds(f"{dtp}.tzinfo is None") is None and not any(
-                ".astimezone(" in un(s) for s in p.stmts()):
-            routed_all = False
-        elif not routed:
+        if not routed:
             routed_all = False
     if n and routed_all:
         ctx.ob("AWARE-INSTANT.instance", "DateTime.instance/aware", True,
